@@ -3,8 +3,8 @@ from checks import _balls_common as common
 
 ID = "C05"
 LEVEL = "exploration"
-RUNS = {"quick": 4000, "thorough": 100000}
-WALL_CAP = {"quick": 150, "thorough": 3600}
+RUNS = {"quick": 6000, "thorough": 100000}
+WALL_CAP = {"quick": 200, "thorough": 3600}
 RULE = ("same workload as C04 (topologies x ball counts x game-action histories x physical eject outcomes); oracle: bounded "
         "liveness after faults stop - devices return to idle within 3x the timeout chain, nothing is still owed to a target "
         "while a source holds a ball, every physically failed eject was retried or reported. Non-trivial = reached a probe; "
